@@ -131,6 +131,12 @@ def printz_scan_exec(rng):
     return ["reset", "new 1 1 4"] + ["printz 1 %d" % v for v in vals] + ["seek 1 0 0"] + ["scanshow 1" for _ in vals] + ["del 1"]
 
 
+def printp_scan_exec(rng):
+    """numbers followed by a literal per cent sign ("%li%% ") written to a File and read back with the same format"""
+    vals = [rng.choice([0, 7, 42, 100, 65535]) for _ in range(rng.randint(2, 6))]
+    return ["reset", "new 1 1 4"] + ["printp 1 %d" % v for v in vals] + ["seek 1 0 0"] + ["scanp 1" for _ in vals] + ["tell 1", "del 1"]
+
+
 def print_scan_exec(rng):
     vals = [rng.choice([0, 1, 9, 10, 255, 65536, 2147483647, 1000000007]) for _ in range(rng.randint(1, 8))]
     L = ["reset", "new 1 1 4"] + ["print 1 %d" % v for v in vals] + ["seek 1 0 0"] + ["scan 1" for _ in vals] + ["close 1", "open 1 1 1"] + ["scan 1" for _ in vals] + ["del 1"]
@@ -170,7 +176,7 @@ def main(tier, replay=None):
     n = 40 if quick else 600
     camp.run([], [random_exec(rng, rng.choice([30, 80]), False) for _ in range(n)], "random")
     camp.run([], [random_exec(rng, 25, True) for _ in range(6 if quick else 60)], "random/bufsiz")
-    camp.run([], [print_scan_exec(rng) for _ in range(10 if quick else 100)] + [printz_scan_exec(rng) for _ in range(6 if quick else 60)], "print-scan")
+    camp.run([], [print_scan_exec(rng) for _ in range(10 if quick else 100)] + [printz_scan_exec(rng) for _ in range(6 if quick else 60)] + [printp_scan_exec(rng) for _ in range(4 if quick else 40)], "print-scan")
     # a close that fails (buffered bytes refused by /dev/full): IOError, one fclose, nothing left to close at del
     camp.run([], [["reset", "fullclose"], ["reset", "new 1 1 2", "write 1 1 3", "fullclose", "close 1", "fullclose", "del 1"], ["reset", "procclose2"]], "failing-close", sample=False)
     chk.cov["rule"] = ("an execution = a history of stream calls on real Files (private temp dir); every event carries return value, "
